@@ -138,6 +138,12 @@ def run_case(item):
     expr_in = Add(*terms)
     if expr_in is S.Zero or not consistent_bks(expr_in):
         return {"status": "skipped", "item": item}
+    rng2 = random.Random(hash(str(item)) % (2 ** 31) if False else (item[1] * 16807 + 5) % (2 ** 31))
+    if not T and rng2.random() < 0.7:
+        # scalar expressions: a term without any index (a number, a number times a symbol) next to
+        # the contractions, e.g. the 1 of a norm 1 - 1/4 t t*
+        from sympy import Symbol
+        expr_in = expr_in + rng2.choice([1, Rational(3, 2), -2, 2 * Symbol("x"), Symbol("x") * Symbol("y") / 2])
     kw = {"target_idx": T} if explicit else {}
     e = Expr(expr_in, **kw)
     n_in = len(e) if e.sympy is not S.Zero else 0
